@@ -3,7 +3,7 @@ Helper lemmas for C09, part 9: the device-level tick equations of a (callback) t
 uniqueness of their solution along the acyclic device-level graph, and the preservation of the
 nested/flat correspondence `Corr` by two ticks that both satisfy the equations.
 -/
-import TickitModel.Lemmas.FlattenCorr
+import TickitModel.Lemmas.FlattenCorrDef
 import TickitModel.Lemmas.FlatDetLemmas
 
 namespace Tickit
@@ -18,6 +18,14 @@ def stepChg (orc : Oracle) (σ : SimSt) (c : Comp) : List (Port × V) :=
   match stepResp orc σ c with
   | some r => outChanges (agetD σ.devs c {}).lastOutputs (normDict r.outs)
   | none => []
+
+theorem flt_nodup_stepChg (orc : Oracle) (σ : SimSt) (c : Comp) : (akeys (stepChg orc σ c)).Nodup := by
+  unfold stepChg
+  split
+  · unfold outChanges normDict
+    exact List.Sublist.nodup (List.Sublist.map _ List.filter_sublist)
+      (nodup_akeys_aupdate (by simp) _)
+  · simp
 
 /-- input port `q` of device `d` is given `v` in this tick: the device driving it was updated
 (it is among `new`) and reported `v` as a change -/
@@ -57,25 +65,14 @@ structure TickEqs (S : Static) (orc : Oracle) (n : Nat) (σ₀ : SimSt) (t : Sim
     agetD σ'.devs d {} = agetD σ₀.devs d {} ∧ agetD σ'.count d 0 = agetD σ₀.count d 0 ∧
     ∀ P, alookup S.parent d = some P → alookup (σ'.sched P).wake d = alookup (σ₀.sched P).wake d
 
-/-- the bookkeeping of the schedulers after a tick -/
-structure SchedOK (S : Static) (σ' : SimSt) : Prop where
-  started : ∀ s, S.isSys s = true → (σ'.sched s).firstDone = true ∧ (σ'.sched s).interrupts = []
-  wake_sys : ∀ s P, S.isSys s = true → alookup S.parent s = some P →
-    alookup (σ'.sched P).wake s = (firstWakeups (σ'.sched s).wake).2
-  wake_keys : ∀ L c, c ∈ akeys (σ'.sched L).wake → alookup S.parent c = some L
-  wake_unique : ∀ L, UniqueKeys (σ'.sched L).wake
-
-theorem Corr.schedOK {S : Static} {st st' : SimSt} (hc : Corr S st st') : SchedOK S st :=
-  ⟨hc.started, hc.wake_sys, hc.wake_keys, hc.wake_unique⟩
-
 /-! ### same state, same response -/
 
-theorem Corr.stepResp_eq {S : Static} {st st' : SimSt} (hc : Corr S st st') (orc : Oracle) {d : Comp}
+theorem DevCorr.stepResp_eq {S : Static} {st st' : SimSt} (hc : DevCorr S st st') (orc : Oracle) {d : Comp}
     (hd : S.isDevice d) : stepResp orc st d = stepResp orc st' d := by
   unfold stepResp
   rw [hc.count d hd]
 
-theorem Corr.stepChg_eq {S : Static} {st st' : SimSt} (hc : Corr S st st') (orc : Oracle) {d : Comp}
+theorem DevCorr.stepChg_eq {S : Static} {st st' : SimSt} (hc : DevCorr S st st') (orc : Oracle) {d : Comp}
     (hd : S.isDevice d) : stepChg orc st d = stepChg orc st' d := by
   unfold stepChg
   rw [hc.stepResp_eq orc hd, (hc.devs d hd).1]
@@ -93,7 +90,7 @@ theorem SimSt.obsOf_append {st st' : SimSt} {new : List Obs} (h : st'.obs = st.o
 /-- **two ticks satisfying the same equations update the same devices** (induction along the
 acyclic device-level graph) -/
 theorem tickEqs_same_updates {S : Static} (hS : S.Valid) {orc : Oracle} {n : Nat}
-    (hrank : S.FlatRank n) (hS' : (S.flatten n).Valid) {σ₀ σ₀' σ' σ'' : SimSt} (hc : Corr S σ₀ σ₀')
+    (hrank : S.FlatRank n) (hS' : (S.flatten n).Valid) {σ₀ σ₀' σ' σ'' : SimSt} (hc : DevCorr S σ₀ σ₀')
     {t : SimTime} {Root Root' : Comp → Prop} (hroot : ∀ d, S.isDevice d → (Root d ↔ Root' d))
     {new new' : List Obs} (E : TickEqs S orc n σ₀ t Root σ' new)
     (E' : TickEqs (S.flatten n) orc 2 σ₀' t Root' σ'' new') :
@@ -128,7 +125,7 @@ theorem tickEqs_same_updates {S : Static} (hS : S.Valid) {orc : Oracle} {n : Nat
 
 /-- the values given to a device are the same in both ticks -/
 theorem tickEqs_devIn_iff {S : Static} (hS : S.Valid) {orc : Oracle} {n : Nat}
-    (hS' : (S.flatten n).Valid) {σ₀ σ₀' : SimSt} (hc : Corr S σ₀ σ₀') {new new' : List Obs}
+    (hS' : (S.flatten n).Valid) {σ₀ σ₀' : SimSt} (hc : DevCorr S σ₀ σ₀') {new new' : List Obs}
     (hsame : ∀ d, S.isDevice d → (d ∈ new.map Obs.comp ↔ d ∈ new'.map Obs.comp))
     {d : Comp} (hd : S.isDevice d) (q : Port) (v : V) :
     S.DevIn orc n σ₀ new d q v ↔ (S.flatten n).DevIn orc 2 σ₀' new' d q v := by
@@ -147,7 +144,7 @@ theorem tickEqs_devIn_iff {S : Static} (hS : S.Valid) {orc : Oracle} {n : Nat}
 /-- **the correspondence is preserved** by a nested and a flat tick that satisfy the tick
 equations for corresponding root sets -/
 theorem corr_of_tickEqs {S : Static} (hS : S.Valid) {orc : Oracle} {n : Nat}
-    (hrank : S.FlatRank n) (hS' : (S.flatten n).Valid) {σ₀ σ₀' σ' σ'' : SimSt} (hc : Corr S σ₀ σ₀')
+    (hrank : S.FlatRank n) (hS' : (S.flatten n).Valid) {σ₀ σ₀' σ' σ'' : SimSt} (hc : DevCorr S σ₀ σ₀')
     {t : SimTime} {Root Root' : Comp → Prop} (hroot : ∀ d, S.isDevice d → (Root d ↔ Root' d))
     {new new' : List Obs} (E : TickEqs S orc n σ₀ t Root σ' new)
     (E' : TickEqs (S.flatten n) orc 2 σ₀' t Root' σ'' new')
@@ -266,14 +263,7 @@ theorem corr_of_tickEqs {S : Static} (hS : S.Valid) {orc : Oracle} {n : Nat}
           exact hc.wake_dev d P hd hP
       wake_sys := hsch.wake_sys
       wake_keys := hsch.wake_keys
-      wake_keys' := by
-        intro c hk
-        have := hsch'.wake_keys "" c hk
-        rw [S.flatten_parent] at this
-        by_cases hcd : c ∈ S.devices
-        · exact Static.mem_devices_iff.1 hcd
-        · simp [hcd] at this
       wake_unique := hsch.wake_unique
-      wake_unique' := hsch'.wake_unique "" }
+      flat_sched := hsch'.flatten_fuel 0 }
 
 end Tickit
